@@ -435,3 +435,8 @@ where
         parsed
     }
 }
+
+// Verification hook: compiled only by `cargo kani` (cfg(kani)); see /verif/MANIFEST.json.
+#[cfg(kani)]
+#[path = "/verif/units/kx/rustemo/lr_parser.rs"]
+mod verif_kani_lr_parser;
